@@ -10,6 +10,7 @@ import (
 	"time"
 
 	"github.com/kercylan98/vivid"
+	"github.com/kercylan98/vivid/pkg/ves"
 	"github.com/kercylan98/vivid/internal/actor"
 	vsimrt "vsimrt/simrt"
 )
@@ -60,6 +61,7 @@ func c06Subtree(r *R) {
 		case 2:
 			ctx.EventStream().Subscribe(ctx, c06Tick{})
 			ctx.EventStream().Subscribe(ctx, c06Evt{})
+			ctx.EventStream().Subscribe(ctx, ves.ActorKilledEvent{})
 		}
 		if jobsMode >= 1 {
 			_ = ctx.Scheduler().Once(ctx.Ref(), time.Millisecond, c06Tick{Owner: p.Path}, vivid.WithSchedulerReference("o1"))
@@ -364,6 +366,13 @@ func c06Subtree(r *R) {
 		for i, n := range evtSeen[p] {
 			if n == 999 && evtSeenAt[p][i] >= tPub {
 				r.Fail("C06/stale-subscription-delivery", "event published after %s terminated was delivered to it", p)
+				return
+			}
+		}
+		// the actor's own ActorKilledEvent is published when its subscriptions are gone: it is never sent to the actor itself
+		for _, e := range evs2 {
+			if e.Kind == "Evt:DeathLetter" && e.Ref == p && e.Info == "ves.ActorKilledEvent of="+p {
+				r.Fail("C06/own-killed-event-sent-to-terminated-actor", "%s subscribed to ActorKilledEvent; the event announcing its own termination was sent to it and became a dead letter: its subscriptions were still in place when it was reported terminated", p)
 				return
 			}
 		}
